@@ -466,14 +466,19 @@ From PB Require Import DpMaster DpStepProofs C14Proofs ScanBase LiveList Scan C1
 
 (* What the master needs of a peripheral.  These are the (undocumented) preconditions of
    `Peripheral::new` / `PeripheralOptions`: a 7-bit address; an output image, Chk_Cfg data and user
-   parameters that fit one telegram (PDU <= 244 bytes with both SAPs: length_byte <= 249; Set_Prm has 7
-   fixed bytes).  The frame count bit of a peripheral is never Inactive (the code only ever assigns
-   First / High / Low).  Nothing is required of the retry counter, the input image, the diagnostics
-   storage or the state. *)
+   parameters that fit one telegram: `fits dsap ssap n` is the serializer's assertion length_byte <= 249
+   for a PDU of n bytes with the SAPs of that service (regenerated tables), i.e. at most 246 bytes of
+   outputs (Data_Exchange uses no SAP bytes), 244 bytes of configuration, 237 bytes of user parameters
+   (Set_Prm has 7 fixed bytes).  The bounds are tight (oversize_output_panics; on the crate: an output
+   image of 247 bytes panics at telegram.rs `assert!(length_byte <= 249)`, 246 bytes do not).
+   The frame count bit of a peripheral is never Inactive (the code only ever assigns First / High / Low).
+   Nothing is required of the retry counter, the input image, the diagnostics storage or the state. *)
+Definition fits (ds ss : option Z) (n : nat) : Prop := (n + has_sap ds + has_sap ss + 3 <= 249)%nat.
+
 Definition periph_ok (p : periph) : Prop :=
-  0 <= pe_addr p < 128 /\ pe_fcb p <> FcbInactive /\ (length (pe_pi_q p) <= 244)%nat /\
-  match o_user_prm (pe_opts p) with Some u => (length u <= 237)%nat | None => True end /\
-  match o_config (pe_opts p) with Some c => (length c <= 244)%nat | None => True end.
+  0 <= pe_addr p < 128 /\ pe_fcb p <> FcbInactive /\ fits dp_dx_dsap dp_dx_ssap (length (pe_pi_q p)) /\
+  match o_user_prm (pe_opts p) with Some u => fits dp_prm_dsap dp_prm_ssap (7 + length u) | None => True end /\
+  match o_config (pe_opts p) with Some c => fits dp_cfg_dsap dp_cfg_ssap (length c) | None => True end.
 
 Definition slots_ok (l : list (option periph)) : Prop :=
   forall i p, nth_error l i = Some (Some p) -> (i <= 255)%nat /\ periph_ok p.
@@ -653,7 +658,7 @@ Definition request_ok (p : periph) (r : ptx) : Prop :=
 Lemma p_transmit_total pa op p : builder_valid pa -> op <> OpStop -> periph_ok p ->
   exists p1 r, p_transmit pa op p = Ok (p1, r) /\ periph_ok p1 /\ pe_addr p1 = pe_addr p /\ request_ok p r.
 Proof.
-  intros B Hop (Ha & Hf & Hq & Hu & Hc). destruct (bv_addr_retry pa B) as (Hts & Hmr).
+  intros B Hop (Ha & Hf & Hq & Hu & Hc). destruct (bv_addr_retry pa B) as (Hts & Hmr). unfold fits in Hq, Hu, Hc. cbn in Hq, Hu, Hc.
   unfold p_transmit. rewrite (opstate_eqb_stop op Hop). unfold p_transmit_select, dp_retry_exhausted.
   destruct (Z.ltb_spec (p_max_retry pa) (pe_retry p)) as [Hex|Hex].
   { eexists; eexists. split; [reflexivity|]. cbn. unfold periph_ok. cbn. repeat split; try assumption; try lia. discriminate. }
@@ -957,11 +962,97 @@ Proof.
   exact (H _ _ E).
 Qed.
 
-Lemma periph_new_ok a o pi_i pi_q dsz : 0 <= a < 128 -> (length pi_q <= 244)%nat ->
-  match o_user_prm o with Some u => (length u <= 237)%nat | None => True end ->
-  match o_config o with Some c => (length c <= 244)%nat | None => True end ->
+Lemma periph_new_ok a o pi_i pi_q dsz : 0 <= a < 128 -> fits dp_dx_dsap dp_dx_ssap (length pi_q) ->
+  match o_user_prm o with Some u => fits dp_prm_dsap dp_prm_ssap (7 + length u) | None => True end ->
+  match o_config o with Some c => fits dp_cfg_dsap dp_cfg_ssap (length c) | None => True end ->
   periph_ok (periph_new a o pi_i pi_q dsz).
 Proof. intros Ha Hq Hu Hc. unfold periph_ok, periph_new. cbn. repeat split; try assumption; try lia. discriminate. Qed.
+
+
+(* ---- masters whose storage is filled front to back.  PeripheralSet::add takes the first free slot and
+   nothing ever frees one, so every storage the public API can produce is `dense` (sparse storages exist
+   only through the verif-hooks constructor); DpRepD = DpRep /\ dense is what lets add() be called while a
+   reply is outstanding: the new peripheral lands behind the one the cycle index points to. *)
+Definition dense (l : list (option periph)) : Prop :=
+  forall i j, (i < j)%nat -> nth_error (map occ l) j = Some true -> nth_error (map occ l) i = Some true.
+
+Definition DpRepD (m : dpm) : Prop := DpRep m /\ dense (dm_slots m).
+
+Definition mask_eq (m m' : dpm) : Prop := map occ (dm_slots m') = map occ (dm_slots m).
+
+Lemma dense_mask m m' : mask_eq m m' -> dense (dm_slots m) -> dense (dm_slots m').
+Proof. unfold mask_eq, dense. intros ->. tauto. Qed.
+
+Lemma increment_cycle_slots m index m2 c : increment_cycle m index = Ok (m2, c) -> dm_slots m2 = dm_slots m.
+Proof.
+  unfold increment_cycle. destruct (get_next_index (dm_slots m) index) as [[n|]| |]; cbn [bind]; try discriminate;
+    intros E; injection E as <- _; reflexivity.
+Qed.
+
+(* the callbacks never change which slots are occupied (from every state, no invariant needed) *)
+Lemma dp_tx_loop_mask pa bs : forall fuel m pev m' r,
+  dp_tx_loop fuel pa bs m pev = Ok (m', r) -> mask_eq m m'.
+Proof.
+  induction fuel as [|fuel IH]; intros m pev m' r E; [discriminate E|].
+  cbn [dp_tx_loop] in E. unfold mask_eq.
+  destruct (dm_cycle m) as [index|]; [|injection E as <- _; reflexivity].
+  destruct (get_at_index (dm_slots m) index) as [[[hd p]|]| |] eqn:Eg; cbn [bind] in E; try discriminate E;
+    [|injection E as <- _; reflexivity].
+  pose proof (get_at_index_some _ _ _ _ Eg) as Hn.
+  destruct (p_transmit pa (dm_op m) p) as [[p1 rr]| |]; cbn [bind] in E; try discriminate E.
+  assert (M1 : map occ (put_slot (dm_slots m) (hd_index hd) p1) = map occ (dm_slots m)) by (eapply put_slot_mask; exact Hn).
+  destruct rr as [h pdu|ev].
+  - destruct (send_data bs h pdu) as [o| |]; cbn [bind] in E; try discriminate E. injection E as <- _. exact M1.
+  - match type of E with bind ?x _ = _ => destruct x as [pev1| |] end; cbn [bind] in E; try discriminate E.
+    match type of E with bind (increment_cycle ?mm _) _ = _ => destruct (increment_cycle mm index) as [[m2 comp]| |] eqn:Ei end;
+      cbn [bind] in E; try discriminate E.
+    apply increment_cycle_slots in Ei. cbn [dm_slots set_slots] in Ei.
+    destruct comp; [injection E as <- _; cbn; rewrite Ei; exact M1|].
+    destruct pev1; [injection E as <- _; cbn; rewrite Ei; exact M1|].
+    apply IH in E. unfold mask_eq in E. rewrite E, Ei. exact M1.
+Qed.
+
+Lemma dp_transmit_mask pa bs m now hp m' r : dp_transmit pa bs m now hp = Ok (m', r) -> mask_eq m m'.
+Proof.
+  unfold dp_transmit. destruct (opstate_eqb (dm_op m) OpStop); [intros E; injection E as <- _; reflexivity|].
+  destruct (if hp then Ok false else gc_due pa m now) as [due| |]; cbn [bind]; try discriminate.
+  destruct due.
+  - destruct (dm_op m); cbn [bind]; try discriminate;
+      (destruct (send_data bs (gc_header pa) _) as [o| |]; cbn [bind]; try discriminate; intros E; injection E as <- _; reflexivity).
+  - apply dp_tx_loop_mask.
+Qed.
+
+Lemma dp_receive_reply_mask m addr t m' : dp_receive_reply m addr t = Ok m' -> mask_eq m m'.
+Proof.
+  unfold dp_receive_reply, mask_eq. destruct (dm_cycle m) as [index|]; [|discriminate].
+  destruct (get_at_index (dm_slots m) index) as [[[hd p]|]| |] eqn:Eg; cbn [bind]; try discriminate.
+  pose proof (get_at_index_some _ _ _ _ Eg) as Hn.
+  destruct (addr =? pe_addr p); [|discriminate].
+  destruct (p_receive_reply p t) as [[p1 ev]| |]; cbn [bind]; try discriminate.
+  match goal with |- bind (increment_cycle ?mm _) _ = _ -> _ => destruct (increment_cycle mm index) as [[m2 comp]| |] eqn:Ei end;
+    cbn [bind]; try discriminate.
+  apply increment_cycle_slots in Ei. cbn [dm_slots set_slots] in Ei.
+  intros E. injection E as <-. cbn. rewrite Ei. eapply put_slot_mask; exact Hn.
+Qed.
+
+Theorem dpd_contract : apps_contract dpm dp_app_ops DpRepD dp_waiting.
+Proof.
+  destruct dp_contract as (Tx & Rx & To). split; [|split].
+  - intros m now p hp (D & Dn) B Tn. destruct (Tx m now p hp D B Tn) as (m' & r & E & D' & Hr).
+    exists m', r. split; [exact E|]. split; [|exact Hr]. split; [exact D'|].
+    eapply dense_mask; [|exact Dn]. eapply dp_transmit_mask. exact E.
+  - intros m now p addr t (D & Dn) W B Tn Rk. destruct (Rx m now p addr t D W B Tn Rk) as (m' & E & D').
+    exists m'. split; [exact E|]. split; [exact D'|]. eapply dense_mask; [|exact Dn]. eapply dp_receive_reply_mask. exact E.
+  - intros m now p addr (D & Dn) W B Tn. exists m. split; [reflexivity|]. split; assumption.
+Qed.
+
+Lemma dense_repeat k : dense (repeat (@None periph) k).
+Proof.
+  intros i j _ H. exfalso. revert j H. induction k as [|k IH]; intros [|j] H; cbn in H; try discriminate. eapply IH. exact H.
+Qed.
+
+Lemma DpRepD_new k owned : DpRepD (dp_new k owned).
+Proof. split; [apply DpRep_new|apply dense_repeat]. Qed.
 
 (* ------------------------------------------------------------------------------------------ *)
 (* Part 3: live list and DP scanner                                                             *)
@@ -1016,13 +1107,13 @@ Qed.
 (* Part 4: any mixture of the applications in one list                                          *)
 
 Definition any_ok (a : any_app) : Prop :=
-  match a with AppUnit => True | AppDp m => DpRep m | AppLl s => ll_ok s | AppSc s => sc_ok s end.
+  match a with AppUnit => True | AppDp m => DpRepD m | AppLl s => ll_ok s | AppSc s => sc_ok s end.
 Definition any_waiting (a : any_app) (da : Z) : Prop :=
   match a with AppUnit => False | AppDp m => dp_waiting m da | AppLl _ => scan_waiting da | AppSc _ => scan_waiting da end.
 
 Theorem any_contract : apps_contract any_app any_app_ops any_ok any_waiting.
 Proof.
-  destruct dp_contract as (Dtx & Drx & Dto). destruct ll_contract as (Ltx & Lrx & Lto). destruct sc_contract as (Stx & Srx & Sto).
+  destruct dpd_contract as (Dtx & Drx & Dto). destruct ll_contract as (Ltx & Lrx & Lto). destruct sc_contract as (Stx & Srx & Sto).
   split; [|split].
   - intros [|m|s|s] now p hp Ha B Tn; cbn [a_tx any_app_ops any_ok] in *.
     + exists AppUnit, None. split; [reflexivity|]. split; exact I.
@@ -1136,11 +1227,137 @@ Proof.
       injection E as <-. split; [lia|exact Pok].
 Qed.
 
+
+(* the same calls keep the occupancy, hence DpRepD *)
+Lemma dp_user_calls_mask :
+  (forall m, mask_eq m (u_take_last_events m)) /\ (forall s m, mask_eq m (u_enter_state s m)) /\
+  (forall h m, mask_eq m (u_request_diagnostics h m)) /\ (forall h q m, mask_eq m (u_write_q h q m)).
+Proof.
+  split; [|split; [|split]]; unfold mask_eq.
+  - reflexivity.
+  - reflexivity.
+  - intros h m. unfold u_request_diagnostics, dp_request_diagnostics, dp_update, dp_get_mut.
+    destruct (nth_error (dm_slots m) (hd_index h)) as [[p|]|] eqn:E; cbn [bind]; try reflexivity.
+    cbn. eapply put_slot_mask. exact E.
+  - intros h q m. unfold u_write_q, dp_write_q, dp_get_mut.
+    destruct (nth_error (dm_slots m) (hd_index h)) as [[p|]|] eqn:E; cbn [bind]; try reflexivity.
+    unfold copy_from_slice. destruct (Nat.eqb (length (pe_pi_q p)) (length q)); cbn [bind]; try reflexivity.
+    cbn. eapply put_slot_mask. exact E.
+Qed.
+
+Lemma user_ok_dense g : user_ok dpm DpRep dp_waiting g -> (forall m, mask_eq m (g m)) -> user_ok dpm DpRepD dp_waiting g.
+Proof.
+  intros (G1 & G2) M. split.
+  - intros m (D & Dn). split; [apply G1, D|]. eapply dense_mask; [apply M|exact Dn].
+  - intros m da (D & _) W. apply G2; assumption.
+Qed.
+
+(* DpMaster::add at any time, also while a reply is outstanding *)
+Definition u_add (p : periph) (m : dpm) : dpm := match dp_add m p with Ok (m', _) => m' | _ => m end.
+
+Lemma first_free_spec (l : list (option periph)) : forall j i, first_free l j = Some i ->
+  exists k, i = (j + k)%nat /\ nth_error l k = Some None /\ forall k', (k' < k)%nat -> nth_error (map occ l) k' = Some true.
+Proof.
+  induction l as [|x l IH]; intros j i E; [discriminate E|].
+  destruct x as [q|]; cbn [first_free] in E.
+  - destruct (IH _ _ E) as (k & -> & En & Hb). exists (S k). split; [lia|]. split; [exact En|].
+    intros [|k'] L; [reflexivity|]. cbn. apply Hb. lia.
+  - injection E as <-. exists 0%nat. split; [lia|]. split; [reflexivity|]. intros k' L. lia.
+Qed.
+
+Lemma first_free_none (l : list (option periph)) : forall j, first_free l j = None ->
+  forall k, (k < length l)%nat -> nth_error (map occ l) k = Some true.
+Proof.
+  induction l as [|x l IH]; intros j E k L; [cbn in L; lia|].
+  destruct x as [q|]; cbn [first_free] in E; [|discriminate E].
+  destruct k as [|k]; [reflexivity|]. cbn. eapply IH; [exact E|cbn in L; lia].
+Qed.
+
+Lemma get_at_index_ext l l' index hd p0 : get_at_index l index = Ok (Some (hd, p0)) ->
+  (forall j, (j <= hd_index hd)%nat -> nth_error l' j = nth_error l j) ->
+  get_at_index l' index = Ok (Some (hd, p0)).
+Proof.
+  unfold get_at_index. intros E Hx.
+  destruct (find_occupied (skipn index l) index) as [[i q]|] eqn:Ef; [|discriminate E].
+  unfold u8_index in *. destruct (Nat.ltb 255 i) eqn:E255; [discriminate E|]. cbn [bind] in E.
+  injection E as <- <-. cbn [hd_index] in Hx.
+  apply find_occupied_spec in Ef. destruct Ef as (k & -> & Hn & Hb).
+  assert (Ef' : find_occupied (skipn index l') index = Some ((index + k)%nat, q)).
+  { apply find_occupied_spec. exists k. split; [reflexivity|]. split.
+    - rewrite nth_error_skipn', Hx by lia. rewrite <- nth_error_skipn'. exact Hn.
+    - intros k' L. rewrite nth_error_skipn', Hx by lia. rewrite <- nth_error_skipn'. apply Hb. exact L. }
+  rewrite Ef', E255. reflexivity.
+Qed.
+
+Lemma nth_error_occ (l : list (option periph)) j : nth_error (map occ l) j = Some true <-> exists q, nth_error l j = Some (Some q).
+Proof.
+  rewrite nth_error_map. destruct (nth_error l j) as [[q|]|]; cbn; split; try discriminate.
+  - intros _. exists q. reflexivity.
+  - reflexivity.
+  - intros (q & E). discriminate E.
+  - intros (q & E). discriminate E.
+Qed.
+
+Lemma dp_add_user_ok p : periph_ok p -> user_ok dpm DpRepD dp_waiting (u_add p).
+Proof.
+  intros Pok.
+  assert (K : forall m, DpRepD m -> DpRepD (u_add p m) /\ forall da, dp_waiting m da -> dp_waiting (u_add p m) da).
+  { intros m (D & Dn). pose proof (dp_add_rep m p D Pok) as Hr. unfold u_add. unfold dp_add in *.
+    destruct (first_free (dm_slots m) 0) as [i|] eqn:Ef.
+    - unfold u8_index in *. destruct (Nat.ltb 255 i); cbn [bind] in *; [split; [split; assumption|tauto]|].
+      destruct (first_free_spec _ _ _ Ef) as (k & Ek & En & Hb). cbn in Ek. subst k.
+      assert (Hl : (i < length (dm_slots m))%nat) by (apply nth_error_Some; congruence).
+      split; [split; [exact Hr|]|].
+      + cbn [dm_slots set_slots]. intros a b Lab Hbt. apply nth_error_occ in Hbt. destruct Hbt as (q & Eq).
+        apply nth_error_occ. rewrite nth_error_put_slot in *.
+        destruct (Nat.eqb_spec a i) as [->|Na]; cbn [andb].
+        * destruct (Nat.ltb_spec i (length (dm_slots m))); [eexists; reflexivity|lia].
+        * apply nth_error_occ.
+          destruct (Nat.eqb_spec b i) as [->|Nb]; cbn [andb] in Eq.
+          -- apply Hb. lia.
+          -- apply (Dn a b Lab). apply nth_error_occ. exists q. exact Eq.
+      + intros da (index & hd & p0 & Hc & Eg & Hda). exists index, hd, p0. split; [exact Hc|]. split; [|exact Hda].
+        cbn [dm_slots set_slots]. eapply get_at_index_ext; [exact Eg|].
+        intros j Lj. rewrite nth_error_put_slot. destruct (Nat.eqb_spec j i) as [->|_]; [|reflexivity].
+        exfalso. pose proof (get_at_index_some _ _ _ _ Eg) as Hk.
+        destruct (Nat.eq_dec i (hd_index hd)) as [Ei|Ni]; [rewrite Ei in En; congruence|].
+        assert (Ho : nth_error (map occ (dm_slots m)) i = Some true).
+        { apply (Dn i (hd_index hd)); [lia|]. apply nth_error_occ. eexists; exact Hk. }
+        apply nth_error_occ in Ho. destruct Ho as (q & Eq). congruence.
+    - destruct (dm_owned m); [|split; [split; assumption|tauto]].
+      unfold u8_index in *. destruct (Nat.ltb 255 (length (dm_slots m))); cbn [bind] in *; [split; [split; assumption|tauto]|].
+      pose proof (first_free_none _ _ Ef) as Hall.
+      split; [split; [exact Hr|]|].
+      + cbn [dm_slots set_slots]. intros a b Lab Hbt.
+        assert (Lb : (b < length (map occ (dm_slots m ++ [Some p])))%nat) by (apply nth_error_Some; congruence).
+        rewrite map_length, app_length in Lb. cbn in Lb.
+        rewrite map_app, nth_error_app1 by (rewrite map_length; lia). apply Hall. lia.
+      + intros da (index & hd & p0 & Hc & Eg & Hda). exists index, hd, p0. split; [exact Hc|]. split; [|exact Hda].
+        cbn [dm_slots set_slots]. eapply get_at_index_ext; [exact Eg|].
+        intros j Lj. pose proof (get_at_index_some _ _ _ _ Eg) as Hk.
+        assert (Lk : (hd_index hd < length (dm_slots m))%nat) by (apply nth_error_Some; congruence).
+        apply nth_error_app1. lia. }
+  split; [intros m D; apply K, D|intros m da D W; apply K; assumption].
+Qed.
+
+Lemma dp_user_calls_dense_ok :
+  user_ok dpm DpRepD dp_waiting u_take_last_events /\
+  (forall s, user_ok dpm DpRepD dp_waiting (u_enter_state s)) /\
+  (forall h, user_ok dpm DpRepD dp_waiting (u_request_diagnostics h)) /\
+  (forall h q, user_ok dpm DpRepD dp_waiting (u_write_q h q)) /\
+  (forall p, periph_ok p -> user_ok dpm DpRepD dp_waiting (u_add p)).
+Proof.
+  destruct dp_user_calls_ok as (A1 & A2 & A3 & A4). destruct dp_user_calls_mask as (M1 & M2 & M3 & M4).
+  split; [apply user_ok_dense; assumption|]. split; [intros s; apply user_ok_dense; [apply A2|apply M2]|].
+  split; [intros h; apply user_ok_dense; [apply A3|apply M3]|].
+  split; [intros h q; apply user_ok_dense; [apply A4|apply M4]|]. exact dp_add_user_ok.
+Qed.
+
 (* a user call on the i-th application if it is a DP master *)
 Definition on_dp (g : dpm -> dpm) (a : any_app) : any_app :=
   match a with AppDp m => AppDp (g m) | _ => a end.
 
-Lemma on_dp_ok g : user_ok dpm DpRep dp_waiting g -> user_ok any_app any_ok any_waiting (on_dp g).
+Lemma on_dp_ok g : user_ok dpm DpRepD dp_waiting g -> user_ok any_app any_ok any_waiting (on_dp g).
 Proof.
   intros (G1 & G2). split.
   - intros [|m|s|s] H; cbn in *; try exact H. apply G1, H.
@@ -1218,13 +1435,96 @@ Definition demo_master : dpm :=
   | _ => dp_new 4 false
   end.
 
-Lemma demo_master_rep : DpRep demo_master /\ occupied demo_master = [0%nat; 1%nat] /\
+Lemma demo_master_rep : DpRepD demo_master /\ occupied demo_master = [0%nat; 1%nat] /\
   Forall any_ok [AppDp demo_master; AppLl ll_new; AppSc sc_new; AppUnit].
 Proof.
-  assert (D : DpRep demo_master).
-  { split; [|exact I]. intros [|[|[|[|i]]]] q E; cbn in E; try discriminate E; try (destruct i; discriminate E);
-      injection E as <-; (split; [lia|]); apply periph_new_ok; cbn; lia. }
+  assert (D : DpRepD demo_master).
+  { split.
+    - split; [|exact I]. intros [|[|[|[|i]]]] q E; cbn in E; try discriminate E; try (destruct i; discriminate E);
+        injection E as <-; (split; [lia|]); apply periph_new_ok; unfold fits; cbn; lia.
+    - intros [|[|a]] [|[|[|[|b]]]] L H; cbn in *; try reflexivity; try lia; try discriminate H.
+      destruct b; discriminate H. }
   split; [exact D|]. split; [reflexivity|].
   constructor; [exact D|]. constructor; [cbv; split; congruence|]. constructor; [cbv; split; congruence|].
   constructor; [exact I|constructor].
 Qed.
+
+(* the preconditions on the image sizes are necessary: a peripheral in data exchange whose output image
+   has 247 bytes makes transmit_telegram panic in the serializer (assert!(length_byte <= 249)); reproduced
+   on the crate (pb_harness run dp, `P - 7 .. 1 247 0`: PANIC src/fdl/telegram.rs:298, 246 bytes: no panic) *)
+Definition oversize_master : dpm :=
+  mkDpm [Some (mkPeriph 7 PsDataExchange 0 FcbHigh [] (repeat 0 247) None ext_default false false default_options)]
+        false OpOperate (Some 0) (CyDataExchange 0) events_default.
+
+Lemma oversize_output_panics :
+  dp_transmit default_params tx_buffer_size oversize_master 0 true = Panic SiteAssertLen /\
+  ~ DpRep oversize_master.
+Proof.
+  split; [vm_compute; reflexivity|]. intros (S & _). destruct (S 0%nat _ eq_refl) as (_ & (_ & _ & Hq & _)).
+  unfold fits in Hq. cbn in Hq. lia.
+Qed.
+
+(* non-vacuity of the composition: a token-holding station (Rep) with the demo master (two peripherals,
+   nobody answers except one SC), a live list and a scanner: the model runs through 18 polls; all three
+   applications are asked in turn, send, receive a reply or a time-out *)
+Definition demo_station (f0 : fdl) : fdl :=
+  set_hold (set_lba (set_gap (set_st (set_conn f0 ConnOnline) (UseToken 0 None false)) (GapWaiting 0)) (Some 0)) 0 1000000000.
+Definition demo_apps : list any_app := [AppDp demo_master; AppLl ll_new; AppSc sc_new].
+
+Fixpoint polls (f : fdl) (apps : list any_app) (l : list (Z * phy_in)) : res (fdl * list any_app * list call) :=
+  match l with
+  | [] => Ok (f, apps, [])
+  | (now, pin) :: t =>
+      let* (f1, _, a1, c1) := Fdl.poll any_app_ops f now pin apps in
+      let* (f2, a2, c2) := polls f1 a1 t in Ok (f2, a2, c1 ++ c2)
+  end.
+
+(* a call without its bytes: (application, 0 = declined | 1 = sent | 2 = reply | 3 = time-out, station) *)
+Definition short (c : call) : Z * Z * option Z :=
+  match c with
+  | CallTransmit i _ (Some (_, er)) => (Z.of_nat i, 1, er)
+  | CallTransmit i _ None => (Z.of_nat i, 0, None)
+  | CallReceiveReply i a _ => (Z.of_nat i, 2, Some a)
+  | CallHandleTimeout i a => (Z.of_nat i, 3, Some a)
+  end.
+
+Definition nb (now : Z) := (now, mkPhyIn false []).
+Definition bz (now : Z) := (now, mkPhyIn true []).
+Definition demo_polls : list (Z * phy_in) :=
+  [nb 100000; bz 100100; nb 110000; bz 110100; (120000, mkPhyIn false [229]); nb 130000; bz 130100; nb 150000; nb 160000;
+   bz 160100; nb 170000; nb 180000; bz 180100; nb 200000; nb 210000; bz 210100; nb 230000; nb 240000].
+
+Lemma demo_station_rep f0 : fdl_new demo_params = Ok f0 ->
+  Rep 3 (demo_station f0) /\ AppsInv any_app any_ok any_waiting (demo_station f0) demo_apps.
+Proof.
+  intros E.
+  assert (B : builder_valid demo_params) by (cbv; repeat split; congruence).
+  destruct (fdl_new_rep 3 demo_params B) as [f0' (E' & R0 & _)]. rewrite E in E'. injection E' as <-.
+  destruct (Rep_set_online 3 f0 R0) as (f1 & E1 & R1). injection E1 as <-.
+  split.
+  - unfold demo_station. apply Rep_set_hold; [|unfold time_ok; lia].
+    apply Rep_set_lba; [|cbn; unfold lba_rng, T62, DMAX; lia].
+    apply Rep_set_gap; [| |cbn; unfold time_ok; lia].
+    + apply Rep_set_st; [exact R1|reflexivity|cbn; unfold time_ok; lia].
+    + cbn. pose proof (bv_ranges _ (rep_p _ _ R1)). cbn in *. lia.
+  - apply AppsInv_idle; [|discriminate]. destruct demo_master_rep as (D & _ & F).
+    inversion F as [|? ? H1 F1]; subst. inversion F1 as [|? ? H2 F2]; subst. inversion F2 as [|? ? H3 F3]; subst.
+    unfold demo_apps. constructor; [exact H1|]. constructor; [exact H2|]. constructor; [exact H3|constructor].
+Qed.
+
+Lemma demo_run :
+  match fdl_new demo_params with
+  | Ok f0 =>
+      match polls (demo_station f0) demo_apps demo_polls with
+      | Ok (f, apps, calls) =>
+          map short calls =
+            [(0, 1, None); (0, 1, Some 8); (0, 2, Some 8); (0, 1, Some 9); (0, 3, Some 9); (0, 0, None);
+             (1, 1, Some 0); (1, 3, Some 0); (1, 0, None); (2, 1, Some 0); (2, 3, Some 0); (2, 0, None);
+             (0, 1, Some 9); (0, 3, Some 9); (0, 0, None); (1, 1, Some 1); (1, 3, Some 1); (1, 0, None);
+             (2, 1, Some 1)] /\
+          f_state f = AwaitDataResponse 1 200000 (Some 0%nat)
+      | _ => False
+      end
+  | _ => False
+  end.
+Proof. vm_compute. split; reflexivity. Qed.
